@@ -552,6 +552,35 @@ func listenerExits(repo string, sites [][2]string) string {
 		"baseorbitdb/orbitdb.go monitorDirectChannel, stores/basestore/base_store.go pubSubChanListener", strings.Join(where, "; "), total)
 }
 
+// unmarshalPairs lists, in source order, the (source bytes, destination) pairs of the json.Unmarshal
+// calls of a function, and the expression the heads to load are built from.
+func unmarshalPairs(repo, file, fn, lean string) string {
+	f, err := parser.ParseFile(fset, filepath.Join(repo, file), nil, 0)
+	if err != nil {
+		die("%s: %v", file, err)
+	}
+	fd := findFunc(f, fn)
+	if fd == nil {
+		die("%s: function %s not found", file, fn)
+	}
+	var pairs []string
+	heads := ""
+	ast.Inspect(fd.Body, func(n ast.Node) bool {
+		switch x := n.(type) {
+		case *ast.CallExpr:
+			if src(x.Fun) == "json.Unmarshal" && len(x.Args) == 2 {
+				pairs = append(pairs, fmt.Sprintf("(%q, %q)", src(x.Args[0]), strings.TrimPrefix(src(x.Args[1]), "&")))
+			}
+		case *ast.AssignStmt:
+			if len(x.Lhs) == 1 && src(x.Lhs[0]) == "heads" && len(x.Rhs) == 1 && heads == "" {
+				heads = src(x.Rhs[0])
+			}
+		}
+		return true
+	})
+	return fmt.Sprintf("/-- generated from %s, func %s: which cached bytes are decoded into which variable, and what the heads to load are built from -/\ndef %s : List (String × String) := [%s]\ndef %sHeads : String := %q\n\n", file, fn, lean, strings.Join(pairs, ", "), lean, heads)
+}
+
 // effectOrder lists, in source order, which of the named effects (a name and the text its call or
 // statement starts with / contains) occur in the body of a function: the order in which the function
 // performs them. An effect that does not occur is left out (and the equality lemma fails).
@@ -641,6 +670,9 @@ func main() {
 				params: []string{"mhSet", "mh"}, bools: map[string]bool{"mhSet": true},
 				calls: map[string]string{"b.options.MaxHistory != nil": "mhSet", "*b.options.MaxHistory": "mh"},
 				only:  "if amount <= 0 && b.options.MaxHistory != nil", result: "stop:var localHeads", resVar: "amount"}) + "\n"
+		}},
+		{"GenLoadHeads", func() string {
+			return unmarshalPairs(repo, bs, "Load", "loadDecodes")
 		}},
 		{"GenFrame", func() string {
 			return fmt.Sprintf("/-- pubsub/directchannel/channel.go: DelimitedReadMaxSize -/\ndef delimitedReadMaxSize : Int := %s\n\n",
